@@ -51,6 +51,10 @@ func convertReflectValueToType(rv reflect.Value, rt reflect.Type) (reflect.Value
 			return convertVMFunctionToType(rv, rt)
 		case reflect.Ptr:
 			// both rv and rt are pointers, convert what they are pointing to
+			if rv.IsNil() {
+				// a nil pointer converts to the nil pointer of the wanted type
+				return reflect.Zero(rt), nil
+			}
 			value, err := convertReflectValueToType(rv.Elem(), rt.Elem())
 			if err != nil {
 				return rv, err
